@@ -22,6 +22,17 @@ def ValidDart (y : DSymData) (δ : Dart) : Prop :=
 
 instance (y : DSymData) (δ : Dart) : Decidable (ValidDart y δ) := by unfold ValidDart; infer_instance
 
+/-- the sign `partial_orientation` gives a chamber is PLUS -/
+def posB (y : DSymData) (d : Nat) : Bool := y.view.partialOrientation.getD d 0 == 1
+
+/-- the direction in which `trace_boundary` leaves the mirror end `(i, d)` -/
+def kplus (y : DSymData) (i d : Nat) : Nat := if posB y d = true then (i + 1) % 3 else (i + 2) % 3
+
+/-- a dart that points in the direction `trace_boundary` walks -/
+def Positive (y : DSymData) (δ : Dart) : Prop := δ.2.1 = kplus y δ.1 δ.2.2
+
+instance (y : DSymData) (δ : Dart) : Decidable (Positive y δ) := by unfold Positive; infer_instance
+
 def tauF (y : DSymData) (δ : Dart) : Dart :=
   match opposite ⟨y, .partialSym⟩ δ.2.1 δ.1 δ.2.2 with
   | .ok (k', e') => (k', δ.1 + δ.2.1 - k', e')
